@@ -18,6 +18,12 @@ def event_case(draw, part, terminal_mode="none", max_events=6):
         # exact binary grid: crossings can coincide with step boundaries
         t0 = float(draw(st.sampled_from([0.0, 1.0, -2.0, 8.0])))
         tf = t0 + draw(st.sampled_from([1.0, 2.0, -1.0, -4.0]))
+    far = draw(st.integers(0, 7)) == 0
+    if far:
+        # short spans far from t = 0: steps of 1e-3 .. 1e-5 where one ulp of t is 1e-14 .. 1e-13 - the values of an event
+        # function a few probe widths from a root are at rounding level
+        t0 = float(draw(st.sampled_from([100.0, -250.0, 1000.0, 64.0])))
+        tf = t0 + draw(st.sampled_from([0.125, -0.125, 0.03125, 0.5]))
     L = abs(tf - t0)
     kinds = ("const", "rot", "decay") if fam != "splitting" else ("rot",)
     prob = draw(EV.exact_problem(kinds=kinds))
@@ -26,6 +32,8 @@ def event_case(draw, part, terminal_mode="none", max_events=6):
     if prob["kind"] == "decay":
         prob["k"] = [k * min(1.0, 3.0 / (abs(k) * L)) for k in prob["k"]]
     frac = draw(st.sampled_from([1 / 4.0, 1 / 8.0, 1 / 16.0, 0.1, 0.3] if slow else [1 / 4.0, 1 / 8.0, 1 / 16.0, 1 / 32.0, 0.1, 0.3, 0.03]))
+    if far and not slow:
+        frac = draw(st.sampled_from([1 / 32.0, 1 / 256.0, 1 / 1024.0]))
     nev = draw(st.integers(1, max_events if not slow else 3))
     evs = []
     for i in range(nev):
@@ -37,6 +45,8 @@ def event_case(draw, part, terminal_mode="none", max_events=6):
             term = None
         evs.append(draw(EV.event_params(prob, t0, tf, terminal=term)))
     tol = draw(st.sampled_from([1e-5, 1e-7, 1e-9]))
+    if far and draw(st.booleans()):
+        tol = 1e-9
     return dict(part=part, method=method, dtype="float64", prob=prob, t0=t0, tf=tf, dt=L * frac * draw(st.sampled_from([1.0, -1.0])),
                 rtol=tol, atol=tol, dense=draw(st.booleans()), events=evs)
 
